@@ -63,7 +63,11 @@ _iov("C03", "OwningIovec is a faithful FIFO byte pipe",
      ["Woodpile.Props.C03"], ["C03"], ["A", "R"],
      "Kernel-checked refinement of the structural OwningIovec model to an abstract byte pipe (theorem list in tools/specs.py); "
      "correspondence of the model with the real crate over random histories of the full producer/consumer API; shadow-buffer oracle.")
-_iov("C04", "Pending backpatches are never observable; filled ones unblock everything", [], [], ["C04"], ["A", "R"],
+_iov("C04", "Pending backpatches are never observable; filled ones unblock everything",
+     ["Woodpile.Props.C04.stable_prefix_has_no_hole", "Woodpile.Props.C04.stable_is_prefix_before_first_hole",
+      "Woodpile.Props.C04.observed_bytes_immutable", "Woodpile.Props.C04.ok_iff_no_pending",
+      "Woodpile.Props.C04.all_filled_unblocks"],
+     ["Woodpile.Props.C04"], ["C04"], ["A", "R"],
      "Kernel-checked theorems on the structural model: the stable prefix never contains a pending placeholder or later bytes; "
      "ok-iff-no-pending; all-filled unblocks; correspondence + shadow-buffer oracle with placeholders.")
 _iov("C05", "Every slice handed out points into live memory", [], [], ["C05"], ["A", "S", "T", "L", "R"],
